@@ -28,6 +28,8 @@ CLAIMED = {
          'Decides strict FIFO use of the container, that a backlogged hop is never idle (start on empty->non-empty, continue while non-empty, every path armed), the zero-bandwidth branch, and structural necessary conditions of the departure formula (latency stamped and waited for, time base from the clock in the same invocation, no integer-truncated per-byte time multiplied by size). The formula, rounding and delay/rate bounds are not decided.', '4/C09'),
  'C10': ('static: byte-account pairing in linear normal form, exact-form check of the drop guard atoms, constant evaluation of ok_to_drop over the enum, exactly-once path rules per sink, writer table of packet fields in hops',
          'Decides that the byte account is balanced with one measure, that the drop guard is exactly the stated predicate with that measure, which packet types are droppable, that every path through each sink handles the packet exactly once and keeps the callback unless dropping, and that hops write only hops/from.address/drop_fun. Run-time values of the predicate are not decided.', '4/C10'),
+ 'C11': ('static: overload-pair enumeration and delegation check, per-field reset dataflow on close/destructor, closed writer/user tables of the registries, guard-dominance (found && owner) on erase/re-point, reachability of the insert from error assignments',
+         'Decides that close() really closes (all 21 overload pairs agree), that close/destructor/re-open release binding and forwarder on every path, that move re-points and neutralises the source, that the TCP and UDP registries have disjoint closed user sets, that erase/re-point need found && owner, that look-ups are checked against end(), and that no error path reaches the insert. Registry contents over histories and the ephemeral-port scan are not decided.', '4/C11'),
 }
 
 NOT_YET = {}
